@@ -360,6 +360,60 @@ def entry_stream(res, rng, entries, excs):
     return cases, meta
 
 
+def tensor_stream(res, rng, entries, excs, cases, meta):
+    """models whose categorical feature occurs ONLY as a marginal of a tensor term (nested feature / dtype / edge-knot
+    lists inside check_X): the unseen-category corruption (and the other X corruptions) must be rejected all the same."""
+    import pygam
+    from pygam import s, l, f, te
+    X, eta, noise = base_data(rng)
+    layouts = [
+        ('l(1) + te(0, 2, dtype=[numerical, categorical])',
+         lambda: l(1) + te(0, 2, dtype=['numerical', 'categorical'], n_splines=[4, 4])),
+        ('te(s(0), f(2)) + l(1)', lambda: te(s(0, n_splines=4), f(2)) + l(1)),
+        ('te(l(1), f(2)) + s(0)', lambda: te(l(1), f(2)) + s(0, n_splines=5)),
+    ]
+    if res.tier == 'quick':
+        layouts = [layouts[0], layouts[1 + res.seed % 2]]
+    for cls in sorted({e['cls'] for e in entries}):
+        if not hasattr(pygam, cls):
+            continue
+        Xb, eta_b, noise_b = X, eta, noise
+        y = {'LogisticGAM': ((eta_b + 2 * noise_b) > np.median(eta_b)).astype(float),
+             'PoissonGAM': np.floor(np.exp(eta_b) + 4 * np.abs(noise_b)),
+             'GammaGAM': np.exp(eta_b + noise_b),
+             'InvGaussGAM': np.exp(eta_b / 2 + noise_b / 2) + 0.5}.get(cls, eta_b + noise_b)
+        for lname, mk in layouts:
+            try:
+                with warnings.catch_warnings():
+                    warnings.simplefilter('ignore')
+                    gam = getattr(pygam, cls)(mk()).fit(Xb, y)
+            except ValueError:
+                res.count('tensor:setup ValueError')
+                continue
+            minfo = dict(y=y, fitted=gam, new=None, bad=None)
+            for e in entries:
+                if e['cls'] != cls or e['fitting'] or e['arg'] not in ('X', 'sample_at_X'):
+                    continue
+                base = Xb if e['arg'] == 'X' else Xb[:7]
+                probes = [('unseen-category-high', 7.0, 'KCat'), ('unseen-category-adjacent', 3.0, 'KCat'),
+                          ('unseen-category-low', -1.0, 'KCat'), ('seen-category', 2.0, None), ('nan-in-categorical-column', np.nan, 'KNonFinite')]
+                for ptag, level, kind in probes:
+                    value = base.copy()
+                    value[len(value) // 2, 2] = level
+                    d = dict(cont='CNdarray', dt='DFloat', len_ok=True, width_ok=True, dom_ok=True, cat_ok=kind != 'KCat', kind=kind)
+                    obs, text = observe(call_plan(e, minfo, Xb, 'fitted', value, True, model=gam), Xb)
+                    record(res, cases, meta, excs, e, d, value, '%s | categorical feature only inside %s' % (ptag, lname), True,
+                           e['meth'] == 'sample', obs, text, extra=dict(terms=lname, category=None if kind == 'KNonFinite' else level))
+                    res.count('tensor-marginal:%s' % (kind or 'valid'))
+                # one column less: the width check with nested feature lists
+                value = base[:, :-1].copy()
+                d = dict(cont='CNdarray', dt='DFloat', len_ok=True, width_ok=False, dom_ok=True, cat_ok=True, kind='KWidth')
+                obs, text = observe(call_plan(e, minfo, Xb, 'fitted', value, True, model=gam), Xb)
+                record(res, cases, meta, excs, e, d, value, 'one-column-less | categorical feature only inside %s' % lname, True,
+                       e['meth'] == 'sample', obs, text, extra=dict(terms=lname))
+                res.count('tensor-marginal:KWidth')
+
+
 def history_stream(res, rng, entries, excs, cases, meta):
     """fitted states reached through a history (fit -> refit on a narrower / wider / shifted category range, gridsearch
     then fit, fit then gridsearch on other data): an unseen category *relative to the last training data* must be
@@ -811,6 +865,7 @@ def run(res):
     excs = load_exceptions()
     cases, meta = entry_stream(res, rng, entries, excs)
     history_stream(res, common.rng_for(res.seed, PROP, 'history'), entries, excs, cases, meta)
+    tensor_stream(res, common.rng_for(res.seed, PROP, 'tensor'), entries, excs, cases, meta)
     nasty_fits(res, rng)
     generic_gam_fits(res, common.rng_for(res.seed, PROP, 'generic'))
     regression_probes(res, common.rng_for(res.seed, PROP, 'regression'))
